@@ -143,6 +143,10 @@ Proof.
   - intro H. apply existsb_eqb_In in H. congruence.
   - destruct (existsb (Z.eqb l) W) eqn:E; [|reflexivity]. apply existsb_eqb_In in E. contradiction.
 Qed.
+Theorem gen_maa_losers_is_model cands W : other_candidates cands W = gen_maa_losers cands W.
+Proof. reflexivity. Qed.
+Theorem gen_maa_plurality_is_model cands W f : gen_maa_tail PLURALITY cands W f = MAA_plurality (all_plurality_pairs cands W).
+Proof. reflexivity. Qed.
 Theorem gen_maa_losers_nodup cands W : NoDup (gen_maa_losers cands W).
 Proof. unfold gen_maa_losers. apply NoDup_filter, NoDup_nodup. Qed.
 (* plurality: one assertion for every (reported winner, other candidate) pair and for nothing else — the family of
